@@ -67,6 +67,20 @@ DIRECTED = [
      "rules=H:10:12:2:2,O:2:-1:9:1,H:10:12:3:3,O:3:-1:9:2,H:10:12:5:6,O:6:30:9:1,H:10:12:6:7,O:7:31:9:1,O:4:10:13:6,"
      "H:10:12:7:9,O:9:30:15:1,O:5:10:13:7,H:20:12:1:8,O:8:31:15:1,O:1:20:2:1"),
 ]
+DIRECTED += [
+    # bounded pool that is used again after genuine rejections (lim=1, one thread): task 0 runs (gated), task 1 fills the
+    # queue, tasks 2 and 3 are rejected with IW_ERROR_OVERFLOW (genuine: the queue holds 1 = limit); the gate opens, the
+    # submitter pauses until tasks 0 and 1 have finished (api 6), iwtp_queue_size must say 0, a further schedule (task 6)
+    # must be accepted (the queue is empty), after it has run the size is 0 again.
+    ("tp-bounded-reuse-after-overflow",
+     "tp nthr=1 lim=1 ovf=0 nsub=1 nt=9 dur=0 wait=1 yp=0 sp=0 seed=1 apis=000064064 gt=0:1 "
+     "rules=H:10:12:2:2,O:2:0:9:1,O:1:10:13:4"),
+    # iwstw_shutdown called from inside a task body (worker thread = thread 0): the self-thread guard answers
+    # IW_ERROR_ASSERTION; afterwards the executor must still work: task 1 is scheduled and run, shutdown(wait) returns.
+    ("stw-shutdown-from-task",
+     "stw lim=0 blk=0 cb=0 nsub=1 nt=2 dur=0 wait=1 yp=0 sp=0 seed=1 trig=99:0 sdt=0:1 wd=3 "
+     "rules=H:10:12:2:2,O:2:0:13:1,H:20:12:1:3,O:3:10:13:2"),
+]
 # the sequence of distinct registry contents that the directed schedule is meant to produce (checked on the real trace;
 # a different sequence without a violation = schedule not reached = inconclusive, reported as a note)
 EXPECT_REGS = {
@@ -98,6 +112,20 @@ def gen_scenario(rng, tier):
     total = nsub * nt
     tk = rng.weighted([(0, 2), (K["RET"], 4), (K["RUN"], 2), (K["WAIT"], 2)])
     tn = rng.range(0, total) if tk in (K["RET"], K["RUN"]) else rng.range(1, 4)
+    if lim and rng.chance(1, 4):
+        # bounded queue that is used again after genuine rejections: rounds of (burst of slow tasks > limit, pause until the
+        # submitter's accepted tasks have finished, queue_size query); aims at counters that drift on the reject path
+        rounds = rng.range(2, 4)
+        pat = ""
+        for _ in range(rounds):
+            pat += "0" * (lim + rng.range(2, 5)) + "6" + "4" * rng.range(1, 2)
+        nsub = rng.choice([1, 1, 2, 3])
+        if tp:
+            nthr = rng.choice([1, 1, 2])
+            return "tp nthr=%d lim=%d ovf=%d nsub=%d nt=%d dur=2 wait=%d yp=%d sp=%d seed=%d apis=%s" % (
+                nthr, lim, rng.choice([0, 0, 1]), nsub, len(pat), wait, yp, sp, seed, pat * nsub)
+        return "stw lim=%d blk=0 cb=%d nsub=%d nt=%d dur=2 wait=%d yp=%d sp=%d seed=%d apis=%s" % (
+            lim, rng.below(2), nsub, len(pat), wait, yp, sp, seed, pat * nsub)
     if tp and rng.chance(3, 5):
         # overflow churn: several overflow threads alive at once that take tasks of different length, so that they leave in
         # another order than they were registered (their cached indexes in tp->threads go stale)
@@ -127,6 +155,16 @@ def gen_scenario(rng, tier):
 FATAL = {"n": 0}  # crashes/hangs seen in this run: after a few of them the remaining scenarios are not worth 25 s each
 
 
+def tsan_reports(err):
+    """ThreadSanitizer report blocks except those of the harness's own post-mortem printing (the watchdog / crash handler
+    reads the event log while the hung threads may still write it)"""
+    if "ThreadSanitizer" not in err:
+        return ""
+    keep = [b for b in err.split("==================") if "WARNING: ThreadSanitizer" in b
+            and not re.search(r"\b(watchdog|on_crash)\b", b)]
+    return "==================".join(keep)
+
+
 def run_batch(exe, lines, env):
     """returns list of (output line or None, died-info) per scenario; restarts the harness after a crash/hang"""
     res = [None] * len(lines)
@@ -138,8 +176,9 @@ def run_batch(exe, lines, env):
                 res[k] = "SKIPPED"
             break
         rc, out, err = vlib.run_lines(exe, "\n".join(lines[i:]) + "\n", timeout=90 + 30 * (len(lines) - i), env=env)
-        if "ThreadSanitizer" in err:
-            errs.append(err)
+        err_lib = tsan_reports(err)
+        if err_lib:
+            errs.append(err_lib)
         outl = [o for o in out if o.strip()]
         for k, o in enumerate(outl):
             if i + k < len(lines):
@@ -276,6 +315,84 @@ def monitor(p, r):
             return ["trace-level: after event %d (%s) the queue holds %d task(s) while every worker thread is parked on the "
                     "condition variable and no wake-up has been issued (lost wake-up)" % (i, tok, qlen)]
     return []
+
+
+def mutex_held_return(p, r):
+    """trace-level: an API call that returns (RET by thread T) after LOCK / WAKE by T with no UNLOCK / WAIT in between has
+    returned with the executor's mutex still locked."""
+    if not r["trace"] or r["hdr"].get("logovf") == "1":
+        return []
+    held, api = {}, {}
+    for i, tok in enumerate(r["trace"]):
+        f = [int(x) for x in tok.split(":")]
+        t, k = f[0], f[1]
+        if k in (K["LOCK"], K["WAKE"]):
+            held[t] = i
+        elif k in (K["UNLOCK"], K["WAIT"]):
+            held.pop(t, None)
+        elif k == K["CALL"]:
+            api[t] = f[2]
+        elif k == K["RET"] and t in held:
+            rest = "the thread deadlocks on its own mutex at its next lock and every later call on the executor from any thread " \
+                   "hangs (trace tag %s)" % r["tag"]
+            if api.get(t) == 3 and t < 10 and f[2] == 3:
+                return ["%s called from a task (thread %d) returned IW_ERROR_ASSERTION with the executor mutex still locked: "
+                        "LOCK at event %d, RET at event %d (%s), no UNLOCK in between; %s"
+                        % ("iwstw_shutdown" if p["kind"] == "stw" else "iwtp_shutdown", t, held[t], i, tok, rest)]
+            return ["API call %s of thread %d returned (event %d, %s) with the executor mutex still locked (LOCK at event %d, no "
+                    "UNLOCK in between); %s" % (api.get(t), t, i, tok, held[t], rest)]
+    return []
+
+
+def queue_counter(p, r):
+    """trace-level (needs the ENQ/DEQ events of the source hook), independent of the model: the real number of queued tasks
+    is #ENQ - #DEQ (iwstw_schedule_only replaces the queue by its task; a non-waiting shutdown empties it).  ENQ/DEQ
+    are logged inside critical sections, so at the UNLOCK token of a caller the count is exact for its whole section.
+    (a) queue_size (api 4) must return that number; (b) IW_ERROR_OVERFLOW is legal only if the queue held >= limit tasks."""
+    st = {"qq": 0, "ovf": 0, "reuse": 0}
+    if r["hdr"].get("hook") != "1" or r["tag"] != "R":
+        return [], st
+    stw = p["kind"] == "stw"
+    lim = int(p.get("lim", "0"))
+    qlen, api, task, snap, notes = 0, {}, {}, {}, []
+    name = "iwstw_queue_size" if stw else "iwtp_queue_size"
+    rejected = False
+    for i, tok in enumerate(r["trace"]):
+        f = [int(x) for x in tok.split(":")]
+        t, k = f[0], f[1]
+        a = f[2] if len(f) > 2 else 0
+        if k == K["CALL"]:
+            api[t] = (a, f[4] if len(f) > 4 else 0)
+            task[t] = f[3] if len(f) > 3 else -1
+        elif k == K["ENQ"]:
+            qlen = 1 if (stw and api.get(t, (0, 0))[0] == 1) else qlen + 1
+        elif k == K["DEQ"]:
+            qlen -= 1
+        elif k == K["DISCARD"] and api.get(t, (0, 0))[0] == 3:
+            qlen -= 1
+        elif k == K["BCAST"] and a == 0 and api.get(t, (9, 0)) == (3, 0):
+            qlen = 0
+        elif k == K["UNLOCK"] and t >= 10:
+            snap[t] = qlen
+        elif k == K["RET"] and t in snap and t >= 10:
+            q = snap.pop(t)
+            fa = api.get(t, (9, 0))[0]
+            if fa == 4:
+                st["qq"] += 1
+                if a != q:
+                    notes.append("%s returned %d (event %d) but the queue held %d task(s) (tasks linked minus tasks taken by the "
+                                 "workers) during that call%s" % (name, a, i, q, ": the counter drifted" if rejected else ""))
+            elif fa in (0, 1, 2):
+                if a == 2:
+                    st["ovf"] += 1
+                    if lim == 0 or q < lim:
+                        notes.append("task %d rejected with IW_ERROR_OVERFLOW (event %d) although the queue held only %d task(s), "
+                                     "limit %d%s" % (task.get(t, -1), i, q, lim,
+                                                     " (earlier rejections were not rolled back?)" if rejected else ""))
+                    rejected = True
+                elif a == 0 and f[3] == 1 and rejected:
+                    st["reuse"] += 1
+    return notes[:3], st
 
 
 def registry(p, r):
@@ -466,7 +583,17 @@ def evaluate(run, exe, model, named, env, label):
         if r["hdr"].get("logovf") == "1":
             run.notes.append("event log overflow in `%s`" % l)
             continue
-        viol = oracle(p, r) or monitor(p, r)
+        viol = mutex_held_return(p, r) + (oracle(p, r) or monitor(p, r))
+        qv, qs = queue_counter(p, r)
+        viol = viol or qv
+        if qs["qq"]:
+            run.dist("queue-size-queries-checked-against-ENQ-DEQ", qs["qq"])
+        if qs["ovf"]:
+            run.dist("scenarios-with-genuine-overflow-rejections")
+        if qs["reuse"]:
+            run.dist("scenarios-accepting-again-after-overflow-rejections")
+        if "sdt" in p:
+            run.dist("stw-shutdown-from-task")
         if p["kind"] == "tp":
             rv, rs = registry(p, r)
             viol = viol or rv
@@ -608,7 +735,7 @@ def replay(run, path):
         res, errs = run_batch(exe, [line], env)
         o = res[0]
         rr = parse_result(o) if o else {"tag": "DIED", "hdr": {}, "trace": [], "tasks": []}
-        v = oracle(p, rr) or monitor(p, rr) or registry(p, rr)[0]
+        v = mutex_held_return(p, rr) + (oracle(p, rr) or monitor(p, rr) or queue_counter(p, rr)[0] or registry(p, rr)[0])
         if not v and r.get("kind") == "tsan" and any("data race" in e for e in errs):
             v = ["ThreadSanitizer data race: " + errs[0][-600:]]
         if not v and rr["tag"] == "R":
